@@ -180,6 +180,12 @@ const MORE: &[&str] = &[
     "Artist:\u{4e00}\u{a0d}\u{d0a}\u{a0a}x",
     "Mode\u{ff1a}3",
     "$bg=real.jpg",
+    "osu file format v1v4",
+    "osu file format v14 v7",
+    "osu file format v9v",
+    "osu file format vv12",
+    "_Combo1 : 1,2,3",
+    "_x",
     "[Fonts]",
     "[Storyboard]",
     "[Skin]",
